@@ -139,13 +139,21 @@ class Curve(object):
         self.m = m = Machine(prog, SRC, budget=200000000)
         # the scrambled generator tables are only used by generator multiplication, which these rows do not call
         for nm in ("p256", "p384", "p521"):
-            m.models["ec_scramble_g_" + nm] = lambda mm, a: mm.alloc(8 * 1024, "prot_g", "heap", init=0)
+            m.models["ec_scramble_g_" + nm] = lambda mm, a, nm=nm: mm.alloc(8 * self._n_tables(mm, nm), "prot_g (%s_n_tables pointers)" % nm, "heap", init=0)
             m.models["free_g_" + nm] = lambda mm, a: None
         pp = m.alloc(8, "pctx", "heap", init=0)
         rc = m.call("ec_ws_new_context", [pp, self.buf(self.p), self.buf(self.b), self.buf(self.n), self.len, 0x1234])
         if rc != 0:
             raise CError("contract", "ec_ws_new_context returned %r" % rc)
         self.ctx = m.load(pp, PTR)
+
+    def _n_tables(self, mm, nm):
+        """Number of precomputed generator tables (global of the table translation unit)."""
+        p, t = mm.lookup_var({"name": nm + "_n_tables", "kind": "VarDecl", "id": None}, mm.tu)
+        v = mm.load(p, t)
+        if not isinstance(v, int) or not 0 < v < 4096:
+            raise Undecided("%s_n_tables is %r" % (nm, v))
+        return v
 
     def buf(self, v, n=None):
         return self.m.alloc_bytes(list(v.to_bytes(n or self.len, "big")), "num")
@@ -362,7 +370,7 @@ def blind_rows(prog, sh=None):
     return n, wrong
 
 
-def dispatch_rows(prog, sh=None):
+def dispatch_rows(prog, sh=None, small=False):
     """ec_ws_scalar: the generator fast path and the generic ladder accept the same scalars.
 
     The point arithmetic is replaced by no-ops and the generic ladder by a recorder; what is interpreted for real is
@@ -374,9 +382,9 @@ def dispatch_rows(prog, sh=None):
         raise Undecided("curve constants were not loaded")
     for name in ("p256", "p384", "p521"):
         olen = (CURVES[name]["p"].bit_length() + 7) // 8
-        for slen in (1, olen - 1, olen, olen + 1, olen + 8, 2 * olen, 100):
-            for which in ("G", "2G", "-G"):
-                for seed in (0, 0xABCDEF0123456789):
+        for slen in ((1, olen - 1, olen, olen + 1, olen + 8, 2 * olen, 100) if not small else (olen, olen + 1, olen + 12, 100)):
+            for which in (("G", "2G", "-G") if not small else ("G",)):
+                for seed in ((0, 0xABCDEF0123456789) if not small else (0,)):
                     if which == "-G" and (slen != olen or seed):
                         continue
                     if not sh.take():
@@ -423,6 +431,10 @@ def dispatch_rows(prog, sh=None):
     return n, wrong
 
 
+def dispatch_rows_small(prog, sh=None):
+    return dispatch_rows(prog, sh, small=True)
+
+
 def ec_tables(check, ctx, rule="K-pw"):
     CURVES.clear()
     CURVES.update(read_curves(ctx.repo))
@@ -444,3 +456,18 @@ def ec_tables(check, ctx, rule="K-pw"):
                  expected=what)
     check.count("c_ec_rows", total)
     return total
+
+
+def memory_tables(check, ctx, rule="M"):
+    """C17: the evaluator's bounds/lifetime checks on the scalar dispatch (generator tables indexed by window number)."""
+    CURVES.clear()
+    CURVES.update(read_curves(ctx.repo))
+    prog = CProgram(ctx.cdb)
+    prog.tu(SRC)
+    res = run_sharded(ctx.root, prog, __name__, ["dispatch_rows_small"], shards=12)
+    n, wrong, und = res["dispatch_rows_small"]
+    if und:
+        raise AnalysisError("C evaluator could not decide the scalar dispatch rows: %s" % und)
+    check.ob(rule, "%s|c|ec_ws.generator_tables" % rule, not wrong, SRC, 0,
+             extracted=("%d of %d rows: " % (len(wrong), n) + "; ".join(wrong[:3])) if wrong else "%d rows (scalars up to 100 bytes on the generator): every read of the precomputed table array stays inside its <curve>_n_tables entries" % n,
+             expected="the window count of the scalar is compared with the table count of the same curve before the tables are indexed")
